@@ -25,7 +25,9 @@ PmObsInit(c) ==
     reloadNext |-> FALSE,                        \* a reload-all arrived after the drain: due next tick
     shutDue |-> 0, shutNext |-> FALSE,
     shutClean |-> FALSE,                         \* when the stop request arrived nothing else was waiting to be handled before it
-    found |-> <<>>,                              \* ticks of found_dead events (unexpected exits noticed)
+    found |-> <<>>,                              \* ticks of found_dead events (first is_alive() = False per process; informational)
+    sure |-> 0,                                  \* restarts of workers that had died on their own, outside reload-all ticks
+    maybe |-> 0,                                 \* the same, reload-all ticks included (whether those count is the manager's choice)
     kills |-> <<>>, killing |-> FALSE,
     ret |-> 2 ]                                  \* 2 = still running, 0 = success, -1 = failure, 3 = crashed
 
@@ -43,14 +45,16 @@ PmFold(c, o, ev) ==
          IF o.shutDue # 0 \/ o.shutNext THEN o
          ELSE LET ht == HandleTick(o, ev.s)
                   waiting == (o.reloadDue = ht) \/ (ev.s = "drained" /\ o.reloadNext)
-                             \/ (\E i \in DOMAIN o.found : o.found[i] = ht - 1)
+                             \/ (\E i \in Slots(c) : o.cur[i].pid # 0 /\ o.cur[i].diedAt # 0 /\ o.cur[i].diedAt < ht)
               IN IF ev.s = "sleep" THEN [o EXCEPT !.shutDue = o.tick, !.shutClean = ~waiting]
                  ELSE [o EXCEPT !.shutNext = TRUE, !.shutClean = ~waiting]
     [] ev.e = "start" ->
          IF ev.slot \in Slots(c)
          THEN [o EXCEPT !.old = IF o.cur[ev.slot].pid # 0 THEN @ \cup {[pid |-> o.cur[ev.slot].pid, joined |-> o.cur[ev.slot].joined]} ELSE @,
                         !.cur[ev.slot] = [pid |-> ev.pid, alive |-> TRUE, diedAt |-> 0, term |-> FALSE, joined |-> FALSE],
-                        !.startsInTick[ev.slot] = @ + 1]
+                        !.startsInTick[ev.slot] = @ + 1,
+                        !.sure = IF o.cur[ev.slot].pid # 0 /\ o.cur[ev.slot].diedAt # 0 /\ o.reloadDue # o.tick THEN @ + 1 ELSE @,
+                        !.maybe = IF o.cur[ev.slot].pid # 0 /\ o.cur[ev.slot].diedAt # 0 THEN @ + 1 ELSE @]
          ELSE o
     [] ev.e = "terminate" ->
          [o EXCEPT !.cur = [i \in Slots(c) |-> IF o.cur[i].pid = ev.pid THEN [o.cur[i] EXCEPT !.term = TRUE, !.alive = FALSE] ELSE o.cur[i]]]
@@ -62,7 +66,13 @@ PmFold(c, o, ev) ==
     [] ev.e = "raised" -> [o EXCEPT !.ret = 3]
     [] OTHER -> o
 
-FoundBefore(o, t) == Cardinality({i \in DOMAIN o.found : o.found[i] < t})
+(* The failure budget counts "unexpected worker exits the manager has handled".  What the manager has noticed is internal,   *)
+(* so the count is bracketed by what can be seen from outside: every restart of a worker that had died on its own is a      *)
+(* handled exit, except that in a tick in which a reload-all is carried out the restart may belong to the reload (the       *)
+(* manager may or may not have noticed the death): sure <= handled <= maybe.  Dead, not yet replaced workers are the exits  *)
+(* that can be "being handled" when the manager gives up.                                                                   *)
+DeadNow(c, o) == Cardinality({i \in Slots(c) : o.cur[i].pid # 0 /\ o.cur[i].diedAt # 0})
+Overdue(c, o, t) == Cardinality({i \in Slots(c) : ~o.cur[i].alive /\ o.cur[i].pid # 0 /\ o.cur[i].diedAt # 0 /\ o.cur[i].diedAt <= t})
 LivePids(c, o) == {o.cur[i].pid : i \in {j \in Slots(c) : o.cur[j].alive}}
 CurPids(c, o) == {o.cur[i].pid : i \in Slots(c)}
 
@@ -74,20 +84,18 @@ PmCheck(c, op, o, ev) ==
            /\ ~(op.cur[ev.slot].joined /\ (op.cur[ev.slot].term \/ ~op.cur[ev.slot].alive))
         THEN {"C17_OnePerSlot"} ELSE {})
   \cup (IF ev.e = "start" /\ \E i \in Slots(c) : i # ev.slot /\ op.cur[i].pid = ev.pid THEN {"C17_OnePerSlot"} ELSE {})
-  \cup (IF ev.e = "tick" /\ op.ret = 2
-           /\ \E i \in Slots(c) : ~op.cur[i].alive /\ op.cur[i].pid # 0 /\ op.cur[i].diedAt # 0 /\ op.cur[i].diedAt <= ev.n - 2
-           /\ ~(c.max_fails >= 1 /\ FoundBefore(op, ev.n - 1) >= c.max_fails)
-        THEN {"C17_Replaced"} ELSE {})
-  \cup (IF ev.e = "eot" /\ op.ret = 2
-           /\ \E i \in Slots(c) : ~op.cur[i].alive /\ op.cur[i].pid # 0 /\ op.cur[i].diedAt # 0 /\ op.cur[i].diedAt <= op.tick - 1
-           /\ ~(c.max_fails >= 1 /\ FoundBefore(op, op.tick) >= c.max_fails)
-        THEN {"C17_Replaced"} ELSE {})
+  (* a worker that died in tick d is noticed by the scan of tick d and replaced in tick d + 1: at the start of tick n nothing *)
+  (* that died in tick n - 2 or earlier is still waiting, unless the budget told the manager to give up instead              *)
+  \cup (IF ev.e \in {"tick", "eot"} /\ op.ret = 2
+        THEN LET od == Overdue(c, op, (IF ev.e = "tick" THEN ev.n - 2 ELSE op.tick - 1))
+                 spent == c.max_fails >= 1 /\ op.sure + od >= c.max_fails
+             IN (IF od > 0 /\ ~spent THEN {"C17_Replaced"} ELSE {})
+                \cup (IF c.max_fails >= 1 /\ (op.sure >= c.max_fails \/ (od > 0 /\ spent)) THEN {"C18_BudgetIgnored"} ELSE {})
+        ELSE {})
   (* ---------------- C18: budget ---------------- *)
-  \cup (IF ev.e = "ret" /\ ev.n = -1 /\ ~(c.max_fails >= 1 /\ FoundBefore(op, op.tick) >= c.max_fails)
+  \cup (IF ev.e = "ret" /\ ev.n = -1
+           /\ ~(c.max_fails >= 1 /\ DeadNow(c, op) >= 1 /\ op.maybe + DeadNow(c, op) >= c.max_fails)
         THEN {"C18_BudgetEarly"} ELSE {})
-  \cup (IF ev.e \in {"tick", "eot"} /\ op.ret = 2 /\ c.max_fails >= 1
-           /\ FoundBefore(op, (IF ev.e = "tick" THEN ev.n ELSE op.tick + 1) - 1) >= c.max_fails
-        THEN {"C18_BudgetIgnored"} ELSE {})
   \cup (IF ev.e = "ret" /\ ev.n \notin {0, -1} THEN {"C18_ReturnStatus"} ELSE {})
   \cup (IF ev.e = "raised" THEN {"C18_Crashed"} ELSE {})
   (* ---------------- C18: reload-all ---------------- *)
